@@ -23,8 +23,41 @@ func VerifDir() string {
 	return "/verif"
 }
 
-// Prop is the property this process decides (VERIF_PROP).
-func Prop() string { return os.Getenv("VERIF_PROP") }
+// Prop is the property this process decides (VERIF_PROP), or the property a
+// shadowed engine body impersonates (see RunShadow).
+func Prop() string {
+	if propOverride != "" {
+		return propOverride
+	}
+	return os.Getenv("VERIF_PROP")
+}
+
+var propOverride string
+
+// EngineDef is a registered engine body (so that other checks, e.g. the C15
+// differential one, can drive its workload).
+type EngineDef struct {
+	Name  string
+	Props []string
+	Body  func(r *Run)
+}
+
+// Engines lists the registered engine bodies in registration order.
+var Engines []EngineDef
+
+// RegisterEngine is called from the engines' init functions.
+func RegisterEngine(name string, props []string, body func(r *Run)) {
+	Engines = append(Engines, EngineDef{name, props, body})
+}
+
+// RunShadow runs an engine body as if it were deciding `prop`, but every rule
+// it breaks is treated as foreign (the run just ends at the next checkpoint).
+func (r *Run) RunShadow(prop string, body func(r *Run)) {
+	saved, savedProp := propOverride, r.Prop
+	propOverride, r.Prop, r.shadow = prop, prop, true
+	defer func() { propOverride, r.Prop, r.shadow = saved, savedProp, false }()
+	body(r)
+}
 
 // Thorough tells whether the thorough tier is running.
 func Thorough() bool { return os.Getenv("VERIF_TIER") == "thorough" }
@@ -165,7 +198,13 @@ type Run struct {
 	W      *World
 	worlds []*World
 
+	// Sweep, if an engine sets it, returns the engine's complete read-API view
+	// of its world as deterministic "method(args)=value" lines. C16 compares it
+	// right before and right after an upgrade.
+	Sweep func() []string
+
 	failed                         bool
+	shadow                         bool
 	foreign                        string
 	fp                             []string
 	changed                        bool // at least one state-changing operation took effect
@@ -203,6 +242,7 @@ func Sim(t *testing.T, body func(r *Run)) {
 
 // Own registers a world for cleanup at the end of the run.
 func (r *Run) Own(w *World) *World {
+	w.blocksFed = 0 // BlockHook counts the engine's own blocks, not the set-up
 	r.worlds = append(r.worlds, w)
 	if r.W == nil {
 		r.W = w
@@ -348,7 +388,7 @@ func (r *Run) AddEpochs(n int64) { r.epochs += n }
 func (r *Run) Violation(rule, kfKey, format string, a ...any) {
 	prop := strings.SplitN(rule, "/", 2)[0]
 	detail := fmt.Sprintf(format, a...)
-	if prop != r.Prop {
+	if prop != r.Prop || r.shadow {
 		// another property's rule: not this check's business. Remember it; the
 		// run ends at the next checkpoint (the model may be out of sync from
 		// here on), after this property's own rules had their chance.
@@ -384,6 +424,34 @@ func (r *Run) Checkpoint() {
 	}
 }
 
+// Uniform draws an integer 0..n-1 with equal probabilities. rapid's own integer
+// generators are deliberately biased towards small and boundary values (0..1
+// of 0..99 carries about 21 %), which distorts workload mixes; single bits are
+// not biased, so the value is assembled from bits (rejection sampling). It
+// still shrinks towards 0.
+func Uniform(t *rapid.T, label string, n int) int {
+	if n <= 1 {
+		return 0
+	}
+	bits := 0
+	for (1 << bits) < n {
+		bits++
+	}
+	v := 0
+	for try := 0; try < 6; try++ {
+		v = 0
+		for b := 0; b < bits; b++ {
+			if rapid.Bool().Draw(t, label) {
+				v |= 1 << b
+			}
+		}
+		if v < n {
+			return v
+		}
+	}
+	return v % n
+}
+
 // Weighted picks an index according to integer weights (zero weights are
 // never picked).
 func Weighted(t *rapid.T, label string, weights []int) int {
@@ -394,7 +462,7 @@ func Weighted(t *rapid.T, label string, weights []int) int {
 	if total == 0 {
 		harnessf("Weighted(%s): all weights zero", label)
 	}
-	x := rapid.IntRange(0, total-1).Draw(t, label)
+	x := Uniform(t, label, total)
 	for i, w := range weights {
 		if x < w {
 			return i
@@ -404,7 +472,7 @@ func Weighted(t *rapid.T, label string, weights []int) int {
 	return len(weights) - 1
 }
 
-// Chance draws true with probability pct/100.
+// Chance draws true with probability pct/100 (shrinks towards false).
 func Chance(t *rapid.T, label string, pct int) bool {
 	if pct <= 0 {
 		return false
@@ -412,13 +480,23 @@ func Chance(t *rapid.T, label string, pct int) bool {
 	if pct >= 100 {
 		return true
 	}
-	return rapid.IntRange(0, 99).Draw(t, label) >= 100-pct
+	return Uniform(t, label, 100) >= 100-pct
 }
 
-// Pick draws an index 0..n-1.
+// Pick draws an index 0..n-1 uniformly.
 func Pick(t *rapid.T, label string, n int) int {
-	if n <= 1 {
-		return 0
+	return Uniform(t, label, n)
+}
+
+// OpsSlice draws the abstract operation list of a run: rapid's SliceOfN(g, 1,
+// max) averages only about six elements, so a per-run knob first draws a
+// minimum length (index 0 is the plain 1..max slice, which is what shrinking
+// converges to, so steps can still be deleted).
+func OpsSlice[T any](t *rapid.T, g *rapid.Generator[T], max int) []T {
+	mins := []int{1, max / 8, max / 3, max * 6 / 10}
+	m := mins[Pick(t, "minOps", len(mins))]
+	if m < 1 {
+		m = 1
 	}
-	return rapid.IntRange(0, n-1).Draw(t, label)
+	return rapid.SliceOfN(g, m, max).Draw(t, "ops")
 }
